@@ -3,8 +3,12 @@
 -/
 import Kevo.Model.Crash
 import Kevo.Proofs.Wal
+import Kevo.Proofs.CrashTrunc
+import Kevo.Proofs.CrashBI
+import Kevo.Proofs.CrashTx
 namespace Kevo.Proofs.Crash
 open Kevo Kevo.Wal Kevo.Crash Kevo.Spec
+open Kevo.Proofs.CrashAux
 
 abbrev EntryWF := Kevo.Proofs.Wal.EntryWF
 
@@ -15,20 +19,33 @@ def wholeBefore (p : WalParams) (crc : Bytes → Nat) : Nat → List Entry → L
     let l := (encodeEntry p crc e).length
     if l ≤ n then e :: wholeBefore p crc (n - l) es else []
 
+theorem wholeBefore_eq (p : WalParams) (crc : Bytes → Nat) : ∀ (es : List Entry) (n : Nat),
+    wholeBefore p crc n es = wholeB p crc n es := by
+  intro es
+  induction es with
+  | nil => intro n; rfl
+  | cons e es ih =>
+    intro n
+    simp only [wholeBefore, wholeB, ih]
+
 /-- C10 (truncation): a log cut at ANY byte replays to exactly the entries completely written before the cut,
     reports no error and skips nothing — a strict prefix of a record never parses as a record. -/
 theorem replay_truncated (p : WalParams) (hp : p.WF) (crc : Bytes → Nat) (hcrc : ∀ bs, crc bs < 2 ^ 32)
     (es : List Entry) (hes : ∀ e ∈ es, EntryWF p e) (n : Nat) :
     let r := replayFile p crc ((es.flatMap (encodeEntry p crc)).take n)
     r.entries = (wholeBefore p crc n es).map (norm p) ∧ r.outcome = .ok ∧ r.skipped = 0 := by
-  sorry
+  intro r
+  have h : r = _ := replayFile_trunc p hp crc hcrc es (fun e he => (hes e he).ok) n
+  rw [h, wholeBefore_eq]
+  exact ⟨rfl, rfl, rfl⟩
 
 /-- C10 (damage after byte n): whatever the bytes from position n on, every entry completely written before n is
     delivered first, unaltered and in order (the reader is a function of the bytes it has consumed). -/
 theorem replay_agrees_before_damage (p : WalParams) (hp : p.WF) (crc : Bytes → Nat) (hcrc : ∀ bs, crc bs < 2 ^ 32)
     (es : List Entry) (hes : ∀ e ∈ es, EntryWF p e) (n : Nat) (junk : Bytes) :
     ((wholeBefore p crc n es).map (norm p)) <+: (replayFile p crc ((es.flatMap (encodeEntry p crc)).take n ++ junk)).entries := by
-  sorry
+  rw [wholeBefore_eq]
+  exact replayFile_damage p hp crc hcrc es (fun e he => (hes e he).ok) n junk
 
 /-- a workload operation the log accepts: sizes fit the format, batch entries fit one physical record. -/
 def WOpWF (p : WalParams) : WOp → Prop
@@ -44,6 +61,81 @@ def eventAt (c : CSt) (k : Nat) : Option Event := c.events.reverse[k - 1]?
 /-- log entries as the reader returns them -/
 def asRead (p : WalParams) (e : Engine.LogEntry) : Entry := norm p (toWal e)
 
+/-! ### the operation-level invariant along a workload -/
+
+theorem full_runOp {p : WalParams} {crc : Bytes → Nat} {sync : Nat} {c : CSt} {n : Nat} (hp : p.WF)
+    (h : Full p crc sync c n) (o : WOp) (ho : WOpWF p o) (hn : n + 1 < 2 ^ 64) :
+    Full p crc sync (runOp p crc c o) (n + 1) := by
+  cases o with
+  | put k v => exact full_writeOne hp h false k v ho.1 ho.2 hn
+  | del k => exact full_writeOne hp h true k [] ho (by simp) hn
+  | tx ops => exact full_txCommit hp h ops ho hn
+  | flush => exact ((full_flushSites h).at _).mono (Nat.le_succ _)
+  | reopen => exact (full_reopenSites h).mono (Nat.le_succ _)
+
+theorem full_run {p : WalParams} {crc : Bytes → Nat} {sync : Nat} (hp : p.WF) :
+    ∀ (ops : List WOp) (c : CSt) (n : Nat), Full p crc sync c n → (∀ o ∈ ops, WOpWF p o) → n + ops.length < 2 ^ 64 →
+      Full p crc sync (ops.foldl (runOp p crc) c) (n + ops.length) := by
+  intro ops
+  induction ops with
+  | nil => intro c n h _ _; exact h
+  | cons o ops ih =>
+    intro c n h hops hn
+    simp only [List.length_cons] at hn
+    have h1 := full_runOp hp h o (hops o (by simp)) (by omega)
+    have h2 := ih _ (n + 1) h1 (fun o' ho' => hops o' (by simp [ho'])) (by omega)
+    have e : n + (o :: ops).length = n + 1 + ops.length := by simp only [List.length_cons]; omega
+    rw [e]
+    exact h2
+
+theorem full_init (p : WalParams) (crc : Bytes → Nat) (sync mem : Nat) :
+    Full p crc sync { eng := { cfg := { memTableSize := mem } }, sync } 0 := by
+  refine ⟨[], [], rfl, ?_, ⟨0, rfl, rfl, Nat.zero_le _⟩, rfl, Nat.le_refl _⟩
+  refine ⟨rfl, ?_, ?_, ?_, Nat.le_succ _, ?_, ⟨0, ?_, Nat.zero_lt_one, fun _ => Nat.le_refl _⟩, Nat.le_refl _,
+    Nat.zero_lt_one, rfl⟩
+  · intro f hf
+    simp only [List.mem_singleton] at hf
+    subst hf; exact Nat.le_refl _
+  · intro es hes e he
+    simp only [List.nil_append, List.mem_singleton] at hes
+    subst hes; simp at he
+  · intro es hes e he
+    simp only [List.nil_append, List.mem_singleton] at hes
+    subst hes; simp at he
+  · intro ev hev; simp at hev
+  · simp [Good, cutList, wholeB]
+
+theorem full_workload (p : WalParams) (hp : p.WF) (crc : Bytes → Nat) (sync mem : Nat) (ops : List WOp)
+    (hops : ∀ o ∈ ops, WOpWF p o) (hseq : ops.length + 1 < p.maxSeq) :
+    Full p crc sync (runWorkload p crc sync mem ops) ops.length := by
+  have hmax : p.maxSeq < 2 ^ 64 := hp.2.2.2.2.2.2.2.2.2.2
+  have := full_run hp ops _ 0 (full_init p crc sync mem) hops (by omega)
+  rw [Nat.zero_add] at this
+  exact this
+
+/-- what a good event recovers -/
+theorem recover_of_evGood (p : WalParams) (hp : p.WF) (crc : Bytes → Nat) (hcrc : ∀ bs, crc bs < 2 ^ 32)
+    (sync : Nat) (c : CSt) (L : List (List Engine.LogEntry)) (nx : Nat) (h : Inv p crc sync c L nx)
+    (k : Nat) (ev : Event) (hev : eventAt c k = some ev) :
+    ∃ s, (replayDir p crc (diskAt c k)).entries = (L.flatten.filter (fun e => e.seq ≤ s)).map (asRead p) ∧
+         (replayDir p crc (diskAt c k)).isErr = false ∧
+         s ≤ ev.walNext ∧ (sync = 2 → ev.ackedSeq ≤ s) := by
+  have hmem : ev ∈ c.events := by
+    have := List.mem_of_getElem? hev
+    simpa using this
+  obtain ⟨s, hg, _, _, hw, _, ha⟩ := h.evs ev hmem
+  have hdisk : diskAt c k = (L.zip ev.flushed).map (fun x => (encL p crc x.1).take x.2) := by
+    unfold diskAt
+    unfold eventAt at hev
+    rw [hev]
+    simp only []
+    rw [← disk_eq p crc c.files L ev.flushed h.streams]
+  rw [hdisk, replayDir_cut p hp crc hcrc L ev.flushed h.ok]
+  refine ⟨s, ?_, by simp [DirReplay.isErr], hw, ha⟩
+  simp only
+  rw [hg, List.map_map]
+  rfl
+
 /-- C02 + C03 (process death): kill the process at ANY instrumentation site k of ANY workload, in ANY sync mode and
     for ANY memtable size; replaying what the operating system holds of the log files yields, without error, exactly
     the entries of the write history whose sequence number is at most some s — i.e. the history up to a whole write
@@ -58,7 +150,11 @@ theorem recover_prefix_proc (p : WalParams) (hp : p.WF) (crc : Bytes → Nat) (h
     ∃ s, (replayDir p crc (diskAt c k)).entries = (c.eng.wal.flatten.filter (fun e => e.seq ≤ s)).map (asRead p) ∧
          (replayDir p crc (diskAt c k)).isErr = false ∧
          s ≤ ev.walNext ∧ (sync = 2 → ev.ackedSeq ≤ s) := by
-  sorry
+  intro c hev
+  obtain ⟨L0, last, h1, h2, _, _, _⟩ := full_workload p hp crc sync mem ops hops hseq
+  have := recover_of_evGood p hp crc hcrc sync c (L0 ++ [last]) _ h2 k ev hev
+  rw [← h1] at this
+  exact this
 
 /-- C02 (clean close): after a clean close everything written before is on disk: at the acknowledgement of a
     `reopen` the recovered entries are the whole history so far. -/
@@ -66,12 +162,44 @@ theorem clean_close_durable (p : WalParams) (hp : p.WF) (crc : Bytes → Nat) (h
     (sync mem : Nat) (ops : List WOp) (hops : ∀ o ∈ ops, WOpWF p o) (hseq : ops.length + 2 < p.maxSeq) :
     let c := runWorkload p crc sync mem (ops ++ [.reopen])
     (replayDir p crc (diskAt c c.events.length)).entries = c.eng.wal.flatten.map (asRead p) := by
-  sorry
+  intro c
+  have hc : c = reopenSites (runWorkload p crc sync mem ops) := by
+    show runWorkload p crc sync mem (ops ++ [.reopen]) = _
+    unfold runWorkload
+    rw [List.foldl_append]
+    rfl
+  obtain ⟨L0, last, h1, h2, ⟨fl, hsh⟩, _, _⟩ :=
+    full_workload p hp crc sync mem (ops ++ [.reopen])
+      (by intro o ho; simp only [List.mem_append, List.mem_singleton] at ho
+          rcases ho with ho | rfl
+          · exact hops o ho
+          · trivial)
+      (by simp only [List.length_append, List.length_cons, List.length_nil]; omega)
+  change Inv p crc sync c (L0 ++ [last]) _ at h2
+  change Shape c _ _ fl at hsh
+  change c.eng.wal = _ at h1
+  -- the last event is the acknowledgement of the reopen: everything is flushed
+  have hb : c.buffered = 0 := by rw [hc, reopenSites_eq]; rfl
+  obtain ⟨ev, rest, hevs, hfl⟩ : ∃ ev rest, c.events = ev :: rest ∧ ev.flushed = c.files.map (·.flushed) := by
+    rw [hc, reopenSites_eq]
+    exact ⟨_, _, at_events _ _, rfl⟩
+  have hlast : c.events.reverse[c.events.length - 1]? = some ev := by
+    rw [hevs]; simp
+  have hdisk : diskAt c c.events.length = ((L0 ++ [last]).zip ev.flushed).map (fun x => (encL p crc x.1).take x.2) := by
+    unfold diskAt
+    rw [hlast]
+    simp only []
+    rw [← disk_eq p crc c.files (L0 ++ [last]) ev.flushed h2.streams]
+  have hfull : fl = (encL p crc last).length := by have := hsh.2.1; omega
+  rw [hdisk, replayDir_cut p hp crc hcrc _ _ h2.ok, hfl, shape_vec hsh, hfull, cutList_fullVec, h1]
+  simp only [encL, wholeB_full, List.map_append, List.flatten_append, List.flatten_cons, List.flatten_nil,
+    List.append_nil, List.map_map]
+  rfl
 
 /-- the model's flushed lengths never exceed what was handed to the writer (well-formedness of the disk model) -/
 theorem flushed_le_stream (p : WalParams) (crc : Bytes → Nat) (sync mem : Nat) (ops : List WOp) :
     ∀ f ∈ (runWorkload p crc sync mem ops).files, f.flushed ≤ f.stream.length := by
-  sorry
+  exact bi_flushed_le (bi_run p crc ops (bi_init _ sync))
 
 /-- C03 (all-or-nothing under process death): corollary of `recover_prefix_proc` — entries sharing a sequence number
     are recovered together or not at all. -/
@@ -81,11 +209,25 @@ theorem commit_atomic_crash_proc (p : WalParams) (hp : p.WF) (crc : Bytes → Na
     let c := runWorkload p crc sync mem ops
     eventAt c k = some ev → e₁ ∈ c.eng.wal.flatten → e₂ ∈ c.eng.wal.flatten → e₁.seq = e₂.seq →
     (asRead p e₁ ∈ (replayDir p crc (diskAt c k)).entries ↔ asRead p e₂ ∈ (replayDir p crc (diskAt c k)).entries) := by
-  sorry
+  intro c hev h1 h2 hseq12
+  obtain ⟨s, hs, _⟩ := recover_prefix_proc p hp crc hcrc sync mem ops hops hseq k ev hev
+  have key : ∀ e ∈ c.eng.wal.flatten, (asRead p e ∈ (replayDir p crc (diskAt c k)).entries ↔ e.seq ≤ s) := by
+    intro e he
+    rw [hs]
+    simp only [List.mem_map, List.mem_filter, decide_eq_true_eq]
+    constructor
+    · rintro ⟨e', ⟨_, hle⟩, heq⟩
+      have : e'.seq = e.seq := by
+        have := congrArg Entry.seq heq
+        simpa [asRead, Kevo.Proofs.Wal.norm_seq, toWal] using this
+      omega
+    · intro hle
+      exact ⟨e, ⟨he, hle⟩, rfl⟩
+  rw [key e₁ h1, key e₂ h2, hseq12]
 
 /-- C03 (buffer semantics): the committed operations are the LAST operation of every key. -/
 theorem last_op_wins (ops : List (Bool × Bytes × Bytes)) (k : Bytes) :
     (bufferOps ops).find? (fun t => t.2.1 == k) = ops.reverse.find? (fun t => t.2.1 == k) := by
-  sorry
+  rw [bufferOps_find]
 
 end Kevo.Proofs.Crash
